@@ -101,6 +101,12 @@ pub fn record(a: &Args) {
     all.extend(names.iter().filter(|n| crate::c18::load_pd(n).len() <= nmax).cloned());
     all.extend(["m3_1", "m5_2", "T(3,4)", "3_1+4_1", "3_1+m3_1"].iter().map(|s| s.to_string()));
     if th { all.extend(["T(3,5)", "T(4,5)", "T(3,4)+3_1", "L2a1+5_2", "m7_7", "m9_42"].iter().map(|s| s.to_string())); }
+    // probes: non-alternating knots with 9 / 10 crossings, where a genus-1 cobordism is neck-cut and dotted again before it is closed
+    // (the evaluation rules for several dots on an open component are only reached there); the builder's elimination order is seeded
+    // by the process' hash state, so each probe is built several times; only the Lee-type points (t != 0) and the polynomial complexes
+    let probes: Vec<String> = ["9_42", "10_132", "m10_132", "10_124", "m10_140"].iter().map(|s| s.to_string()).collect();
+    let reps = if th { 6 } else { 3 };
+    for _ in 0..reps { all.extend(probes.iter().cloned()); }
     if let Some(o) = only { all = o; }
     // the evaluation grid
     let zpts: Vec<(i64, i64)> = if th { let mut v: Vec<(i64, i64)> = (-2..=2).flat_map(|x| (-2..=2).map(move |y| (x, y))).filter(|p| *p != (0, 0)).collect(); v.extend([(3, 0), (2, 3), (3, -2), (0, 3), (4, 1)]); v }
@@ -110,14 +116,16 @@ pub fn record(a: &Args) {
     let qpts: Vec<(i64, i64)> = if th { vec![(1, 0), (0, 1), (2, 3), (-1, 2), (2, 0)] } else { vec![(1, 0), (0, 1), (2, 3)] };
 
     let mut overflows = 0usize;
+    let mut probe_np = 0usize;
     let (mut links, mut cxs, mut panics, mut entries, mut maxrank, mut polys, mut directs) = (0usize, 0usize, 0usize, 0usize, 0usize, 0usize, 0usize);
     for name in all.iter() {
         let l = match guarded(|| match name.as_str() { "empty" => Link::empty(), "unknot" => Link::unknot(), n => named(n) }) {
             Ok(l) => l, Err(m) => { t.emit(&json!({"op": "link", "name": name, "res": "panic", "panic": m})); panics += 1; continue; } };
         links += 1;
         t.emit(&json!({"op": "link", "name": name, "n": l.crossing_num(), "comps": l.components().len(), "res": "ok"}));
+        let probe = probes.contains(name);
         for red in [false, true] {
-            if red && l.is_empty() { continue; }
+            if red && (l.is_empty() || probe) { continue; }
             let mut jobs: Vec<(&str, P, P)> = vec![];
             if !red { jobs.push(("ZHT", P::Var, P::Var)); jobs.push(("ZT", P::Zero, P::Var)); }
             jobs.extend([("ZHT", P::Var, P::Zero), ("ZH", P::Var, P::Zero), ("QH", P::Var, P::Zero), ("F2H", P::Var, P::Zero)]);
@@ -128,6 +136,9 @@ pub fn record(a: &Args) {
             for p in f2pts.iter().filter(|p| ok(p)) { jobs.push(("F2", P::Num(p.0), P::Num(p.1))); }
             for p in f3pts.iter().filter(|p| ok(p)) { jobs.push(("F3", P::Num(p.0), P::Num(p.1))); }
             for p in qpts.iter().filter(|p| ok(p)) { jobs.push(("Q", P::Num(p.0), P::Num(p.1))); }
+            if probe { let keep: Vec<(&str, P, P)> = jobs.iter().enumerate().filter(|(k, j)| if *k < npoly { j.2 == P::Var } else { matches!(j.2, P::Num(_)) && j.2 != P::Num(0) && matches!(j.1, P::Num(0) | P::Num(1)) }).map(|(_, j)| *j).collect();
+                let np = keep.iter().filter(|j| j.2 == P::Var).count(); jobs = keep; probe_np = np; }
+            let npoly = if probe { probe_np } else { npoly };
             for (k, (ring, h, tt)) in jobs.iter().enumerate() {
                 let mut e = json!({"op": "cx", "name": name, "ring": ring, "red": red, "h": pj(*h, "H", k < npoly), "t": pj(*tt, "T", k < npoly)});
                 match guarded(|| cx_of(ring, &l, *h, *tt, red)) {
